@@ -1,3 +1,4 @@
+import GoRedisModel.Generated.Facts
 import GoRedisModel.Proofs.Chunked
 import GoRedisModel.Proofs.Parse
 /-! # C02 — parsing a RESP stream does not depend on how the bytes are chunked -/
@@ -75,5 +76,11 @@ example : inextAll 3 20 sampleReader = (sampleVals, some .eof) :=
 
 example : inextAll 3 20 ⟨[b!"+OK\r", b!"\n$3\r\nab", b!"c\r", b!"\n"]⟩ = (sampleVals, some .eof) :=
   C02_sequence sampleVals (by simp [sampleVals, wfs, wf, CR, LF, maxBulk]) _ (by decide) 20 (by decide) (by decide)
+
+/-- **The parser source is the one that was transcribed** (regenerated on every run): the six functions of
+`redis/proto/parser.go` and `array.go` that `Model/ParserImpl` mirrors byte for byte have the fingerprints it was written
+from -/
+theorem C02_source_parser_is_the_modelled_one :
+    parserModelled.all (fun e => Generated.protoFingerprints.contains (e.1, e.2.1)) = true := by decide
 
 end GoRedis
